@@ -14,12 +14,14 @@ package main
 //
 // where &W{...} is a wrapper literal `&W{client: <inner>, hook: R.hook}` whose
 // inner is either the derived client itself or `&E{Embedded: x}`.
-// Any other statement shape is an error (fail closed).
+// Any other statement shape becomes an `opaque` row, whose outcome in the model is `unknown`: the
+// theorems about it no longer check (fail closed) but everything still builds.
 
 import (
 	"fmt"
 	"go/ast"
 	"go/token"
+	"os"
 	"sort"
 	"strings"
 )
@@ -152,7 +154,12 @@ func genHook() error {
 		}
 		row, err := classifyHookMethod(fd, rname, rtype, si.fields)
 		if err != nil {
-			return fail("%s: %s.%s: %v", pos(fd), rtype, fd.Name.Name, err)
+			// A body outside the known shapes does not stop the generator: it becomes an `opaque` row.
+			// The interpreter gives an opaque row the outcome `unknown`, so every theorem about that
+			// method fails to check (fail closed), while the table, the driver and the harness still
+			// build and the correspondence suite can produce a failing input.
+			fmt.Fprintf(os.Stderr, "extract: hook: %s: %s.%s: %v -> opaque row\n", pos(fd), rtype, fd.Name.Name, err)
+			row = hookRow{recv: rtype, method: fd.Name.Name, kind: "opaque"}
 		}
 		rows = append(rows, row)
 	}
@@ -173,7 +180,7 @@ func genHook() error {
 	b.WriteString("namespace Rv.Gen.Hook\n\n")
 	b.WriteString("/-- method set of interface rueidis.Client (rueidis.go, embedded interfaces flattened) -/\ndef clientIface : List String := [" + joinLeanStr(clientIface) + "]\n\n")
 	b.WriteString("/-- method set of interface rueidis.DedicatedClient -/\ndef dedicatedIface : List String := [" + joinLeanStr(dedicatedIface) + "]\n\n")
-	b.WriteString("inductive Kind | hook | pass | panics | wrapcb | wrapret | wrapmap\n  deriving DecidableEq, Repr\n\n")
+	b.WriteString("inductive Kind | hook | pass | panics | wrapcb | wrapret | wrapmap | opaque\n  deriving DecidableEq, Repr\n\n")
 	b.WriteString("/-- one explicit method of a wrapper struct of rueidishook/hook.go, classified by the shape of its body -/\n")
 	b.WriteString("structure Row where\n  recv : String\n  method : String\n  kind : Kind\n  target : String\n  calls : Nat\n  clientArg : String\n  argsFwd : Bool\n  retDirect : Bool\n  wrapper : String\n  wrapInner : String\n  hookKept : Bool\n  deriving DecidableEq, Repr\n\n")
 	b.WriteString("/-- methods of interface `Hook` (each takes the inner client first) -/\ndef hookMethods : List String := [" + joinLeanStr(hookMethods) + "]\n\n")
